@@ -1,4 +1,4 @@
-import KV.Proofs.TxPoolGap
+import KV.Proofs.TxPoolReject
 /-!
 # C17 — the transaction pool only offers executable transactions and respects its limits
 
@@ -14,11 +14,12 @@ Model: `KV/Model/TxPool.lean`.  Proved here, for every list / every op sequence 
    `price ≥ old×(100+bump)/100 ∧ price > old`; otherwise the list is unchanged;
 4. `forward_ready` — `Ready start` returns a maximal gap-free nonce run, which starts at `start`
    once `Forward start` has been applied.
-5. `pool_inv` is kept as `pool_invStatement` (not proved; checked by the oracle on the real pool
-   and by the refinement differential on the model); proved parts: `pool_inv_init`,
-   `reject_noop_partial` (a submission rejected by validation leaves the pool unchanged) and the
-   counterexample `reject_noop_counterexample` (finding F12: with the pool full, room is made
-   before the replacement test, so a rejected submission changes the pool).
+5. the pool invariants over `Reach` (`pool_inv_gapfree`, `pool_inv_affordable`, `pool_inv_nonce`,
+   `pool_inv_disjoint`, …; `pool_invStatement` keeps the one unproved clause);
+6. `reject_noop` — in every reachable state every branch of `add` that answers with an error, of
+   whatever kind, returns the pool unchanged (with the repair of F12: eligibility of a same-nonce
+   replacement is tested before room is made); `reject_noop_counterexample` keeps the old order
+   (`addOld`) as a regression theorem.
 -/
 namespace KV.TxPool
 open TxList
@@ -293,7 +294,8 @@ NOT proved: the clause `all_listed` (`all` = pending ⊎ queue) — it needs (a)
 unique (removal from the index is by id), (b) partition lemmas for `Forward/Filter/Ready/Cap/
 Remove` (every member of the list ends up in exactly one of the returned parts), because
 `promoteAccount`/`demoteAccount` update the index and the lists at different moments, (c) "a
-demoted transaction is always re-inserted", which follows from `reach_ndisj`; and the *id* form of
+demoted transaction is always re-inserted", which follows from `reach_ndisj`, (d) queued lists are
+never strict (`Filter`'s invalids are ignored by `promoteExecutables`); and the *id* form of
 `disjoint`, which needs (a).  Both are established by the oracle on the real pool after every
 operation and by the refinement differential of this model. -/
 def pool_invStatement : Prop :=
@@ -471,19 +473,6 @@ theorem pool_inv_disjoint {cfg : Cfg} {c : Chain} {p : Pool} (h : Reach cfg c p)
   have h2 := ((hg.que f.1 f.2 hqf).2 t hu).1
   exact key (by rw [← h1, ← h2]) rfl
 
-theorem sorted_nonce_inj {l : List Tx} (hs : Sorted l) {x y : Tx} (hx : x ∈ l) (hy : y ∈ l)
-    (hn : x.nonce = y.nonce) : x = y := by
-  induction l with
-  | nil => simp at hx
-  | cons z zs ih =>
-    unfold Sorted at hs ih
-    rw [List.pairwise_cons] at hs
-    rcases List.mem_cons.mp hx with hx1 | hx1 <;> rcases List.mem_cons.mp hy with hy1 | hy1
-    · rw [hx1, hy1]
-    · subst hx1; have := hs.1 y hy1; omega
-    · subst hy1; have := hs.1 x hx1; omega
-    · exact ih hs.2 hx1 hy1
-
 /-- **pool_inv_one_per_nonce.** In every reachable state the pool holds at most one transaction
 per (sender, nonce): a replaced transaction is gone from both lists. -/
 theorem pool_inv_one_per_nonce {cfg : Cfg} {c : Chain} {p : Pool} (h : Reach cfg c p) :
@@ -542,8 +531,9 @@ theorem pool_inv_init (cfg : Cfg) (c : Chain) :
     Inv { cfg := cfg, chain := c, gasPrice := cfg.priceLimit } := by
   constructor <;> simp
 
-/-- **reject_noop_partial.** A submission that `validateTx` rejects (or whose hash is known)
-is answered with that error by every branch of `add`, and the pool is unchanged. -/
+/-- **reject_noop_valid_partial** (kept from the first round): a submission that `validateTx`
+rejects (or whose hash is known) is answered with an error by every branch of `add`, and the pool
+is unchanged — in *any* pool state, no invariant needed. -/
 theorem reject_noop_partial (p : Pool) (t : Tx) (loc : Bool)
     (h : p.known t = true ∨ (p.validate t (loc || p.isLocalAcc t.sender)).isSome) :
     ∀ r ∈ p.add t loc, r.1 = p ∧ ∃ e, r.2 = .error e := by
@@ -559,6 +549,62 @@ theorem reject_noop_partial (p : Pool) (t : Tx) (loc : Bool)
       | some e =>
         simp [hv] at hr; subst hr; exact ⟨rfl, _, rfl⟩
 
+/-- **reject_noop.** In every reachable state, every branch of `TxPool.add` — every allowed
+outcome of `Discard` included — that answers with an error returns the pool it was given, for
+*every* error kind: already known, each `validateTx` error (oversized, negative value, gas limit,
+invalid sender, under the price floor, nonce too low, insufficient funds, intrinsic gas),
+replacement under-priced, pool-underpriced, pool overflow (churn guard and "cannot make room").
+After the eligibility test has been passed no later step can fail, because making room only
+removes or demotes listed transactions (`Elig_removeL`, `addTail_ok`). -/
+theorem reject_noop {cfg : Cfg} {c : Chain} {p : Pool} (h : Reach cfg c p) (t : Tx) (loc : Bool) :
+    ∀ r ∈ p.add t loc, ∀ e, r.2 = .error e → r.1 = p :=
+  add_reject_noop (reach_good h) (strongPhi_PQ _) (reach_ndisj h) t loc
+
+/-- the same for a locked batch (`addTxsLocked`): if every transaction of the batch is rejected
+the pool is unchanged and no account is marked dirty -/
+theorem reject_noop_batch {cfg : Cfg} {c : Chain} {p : Pool} (h : Reach cfg c p) (txs : List Tx)
+    (loc : Bool) :
+    ∀ r ∈ p.addBatch loc txs, (∀ x ∈ r.2.1, ∃ e, x = .error e) → r.1 = p ∧ r.2.2 = [] :=
+  addBatch_reject_noop txs (reach_good h) (strongPhi_PQ _) (reach_ndisj h) loc
+
+/-- **reject_noop_addTxs.** The public entry point (`AddLocals`/`AddRemotesSync` with one
+transaction): a rejected submission contributes nothing.  If the pre-filter rejects it (known
+hash, unrecoverable sender) the pool is returned as it is; otherwise the code still runs its reorg
+(`requestPromoteExecutables` with an empty dirty set), so the result is an *idle reorg run* of the
+unchanged pool — which is the pool itself up to the churn counter when it is within its limits
+(`runReorg_idle_settled`), and otherwise the truncation that was pending anyway (e.g. after
+`SetGasPrice`, which runs no reorg). -/
+theorem reject_noop_addTxs {cfg : Cfg} {c : Chain} {p : Pool} (h : Reach cfg c p) (t : Tx) (loc : Bool) :
+    ∀ r ∈ p.addTxs [t] loc, ∀ e, r.2 = [some e] → r.1 = p ∨ r.1 ∈ p.runReorg none [] := by
+  intro r hr e hre
+  unfold addTxs at hr
+  by_cases hk : p.known t = true
+  · simp [hk] at hr; left; rw [hr]
+  · by_cases hs : t.sigOk = true
+    · right
+      simp only [hk, hs, List.map_cons, List.map_nil, Bool.not_true, Bool.false_eq_true, if_false,
+        List.filter_cons, Option.isNone_none, if_true, List.filter_nil, List.isEmpty_cons,
+        List.mem_flatMap, List.mem_map] at hr
+      obtain ⟨r1, hr1, q, hq, he⟩ := hr
+      subst he
+      -- the single result of the batch is the error
+      have hlen : ∃ x, r1.2.1 = [x] := by
+        simp only [addBatch, List.mem_flatMap, List.mem_map, List.mem_singleton] at hr1
+        obtain ⟨a, _, s, hs', he⟩ := hr1
+        subst he; subst hs'
+        exact ⟨a.2, rfl⟩
+      obtain ⟨x, hx⟩ := hlen
+      have hxe : x = .error e := by
+        simp only [hx, List.map_cons, List.map_nil, List.foldl_cons, List.foldl_nil, List.nil_append,
+          List.headD_cons, List.cons.injEq, and_true] at hre
+        cases x with
+        | error e' => simp at hre; rw [hre]
+        | ok b => simp at hre
+      obtain ⟨h1, h2⟩ := reject_noop_batch h [t] loc r1 hr1 (by rw [hx]; intro y hy; simp at hy; exact ⟨e, by rw [hy, hxe]⟩)
+      rw [h1, h2] at hq
+      exact hq
+    · simp [hk, hs] at hr; left; rw [hr]
+
 /-- the pool of finding F12: four slots in total, prices 10, 2, 3, 4 -/
 def f12Pool : Pool :=
   let cfg : Cfg := { accountSlots := 1, globalSlots := 2, accountQueue := 1, globalQueue := 2 }
@@ -571,14 +617,24 @@ def f12Pool : Pool :=
 /-- the re-submission of sender 0's nonce at the same price (new hash) -/
 def f12Tx : Tx := { id := 5, sender := 0, nonce := 0, price := 10, gas := 1, value := 1 }
 
-/-- **reject_noop_counterexample (finding F12).** `add` answers "replacement transaction
-underpriced" and the cheapest transaction of another account has been discarded: a rejected
-submission that changed the pool.  (This is the code's behaviour, which the model follows.) -/
+/-- `TxPool.add` as the code was before the repair of F12: no eligibility test before room is
+made -/
+def addOld (p : Pool) (t : Tx) (loc : Bool) : List (Pool × Except Err Bool) :=
+  if p.known t then [(p, .error .alreadyKnown)]
+  else
+    let isLocal := loc || p.isLocalAcc t.sender
+    match p.validate t isLocal with
+    | some e => [(p, .error e)]
+    | none => p.addRoom t isLocal loc
+
+/-- **reject_noop_counterexample (finding F12, fixed; regression theorem about the OLD order).**
+`addOld` answers "replacement transaction underpriced" and the cheapest transaction of another
+account has been discarded: a rejected submission that changed the pool. -/
 theorem reject_noop_counterexample :
-    ∃ r ∈ f12Pool.add f12Tx false,
+    ∃ r ∈ f12Pool.addOld f12Tx false,
       r.2 = .error .replaceUnderpriced ∧ r.1.all.length + 1 = f12Pool.all.length ∧
       amGet r.1.pending 1 = none ∧ (amGet f12Pool.pending 1).isSome := by
-  have h : (f12Pool.add f12Tx false).any (fun r =>
+  have h : (f12Pool.addOld f12Tx false).any (fun r =>
       (match r.2 with | .error e => e == Err.replaceUnderpriced | .ok _ => false) &&
       (r.1.all.length + 1 == f12Pool.all.length) && (amGet r.1.pending 1).isNone &&
       (amGet f12Pool.pending 1).isSome) = true := by decide
@@ -586,6 +642,26 @@ theorem reject_noop_counterexample :
   simp only [Bool.and_eq_true, beq_iff_eq, Option.isNone_iff_eq_none] at hp
   obtain ⟨⟨⟨h1, h2⟩, h3⟩, h4⟩ := hp
   refine ⟨r, hr, ?_, h2, h3, h4⟩
+  cases hr2 : r.2 with
+  | error e => rw [hr2] at h1; simp at h1; rw [h1]
+  | ok b => rw [hr2] at h1; simp at h1
+
+/-- **reject_noop_f12_witness.** On the same witness the repaired `add` has exactly one outcome:
+"replacement transaction underpriced", with every list and the index untouched. -/
+theorem reject_noop_f12_witness :
+    ∀ r ∈ f12Pool.add f12Tx false,
+      r.2 = .error .replaceUnderpriced ∧ r.1.pending = f12Pool.pending ∧ r.1.queue = f12Pool.queue ∧
+      r.1.all = f12Pool.all ∧ r.1.pnonce = f12Pool.pnonce ∧ r.1.changes = f12Pool.changes := by
+  have h : (f12Pool.add f12Tx false).all (fun r =>
+      (match r.2 with | .error e => e == Err.replaceUnderpriced | .ok _ => false) &&
+      decide (r.1.pending = f12Pool.pending) && decide (r.1.queue = f12Pool.queue) &&
+      decide (r.1.all = f12Pool.all) && decide (r.1.pnonce = f12Pool.pnonce) &&
+      decide (r.1.changes = f12Pool.changes)) = true := by decide
+  intro r hr
+  have hp := List.all_eq_true.mp h r hr
+  simp only [Bool.and_eq_true, decide_eq_true_eq] at hp
+  obtain ⟨⟨⟨⟨⟨h1, h2⟩, h3⟩, h4⟩, h5⟩, h6⟩ := hp
+  refine ⟨?_, h2, h3, h4, h5, h6⟩
   cases hr2 : r.2 with
   | error e => rw [hr2] at h1; simp at h1; rw [h1]
   | ok b => rw [hr2] at h1; simp at h1
